@@ -595,6 +595,7 @@ PROPS["C14"] = dict(
             dict(harness="VerifHarness_C14_replay", reach=["dirty", "clean", "restored", "restore-failed", "replayed"]),
             dict(harness="VerifHarness_C14_normalize", reach=["dirty", "clean", "restored", "restore-failed", "normalized"]),
             dict(harness="VerifHarness_C14_gate", reach=["dirty", "clean"]),
+            dict(pkg="ariga.io/atlas/sql/mysql", hdir="mysql", harness="VerifHarness_C14_mysql_normalize", reach=["dirty", "clean", "normalized", "fault"]),
             dict(module="cmd/atlas", pkg="ariga.io/atlas/cmd/atlas/internal/migratelint", hdir="migratelint", harness="VerifHarness_C14_lint",
                  reach=["loaded", "failed", "checkpoint", "restored", "restore-failed"]),
         ],
@@ -602,6 +603,7 @@ PROPS["C14"] = dict(
             dict(harness="VerifHarness_C14_replay3", reach=["dirty", "clean", "restored", "restore-failed", "replayed"]),
             dict(harness="VerifHarness_C14_normalize", reach=["dirty", "clean", "restored", "restore-failed", "normalized"]),
             dict(harness="VerifHarness_C14_gate", reach=["dirty", "clean"]),
+            dict(pkg="ariga.io/atlas/sql/mysql", hdir="mysql", harness="VerifHarness_C14_mysql_normalize", reach=["dirty", "clean", "normalized", "fault"]),
             dict(module="cmd/atlas", pkg="ariga.io/atlas/cmd/atlas/internal/migratelint", hdir="migratelint", harness="VerifHarness_C14_lint3",
                  reach=["loaded", "failed", "checkpoint", "restored", "restore-failed"]),
         ],
@@ -610,7 +612,8 @@ PROPS["C14"] = dict(
         "quick": "dev database holding 0..2 user tables; Executor.Replay over directories of 1..2 files x 2 statements, and DevDriver.NormalizeRealm / "
                  "NormalizeSchema of 1..2 tables; the index of the failing dev-database operation (inspection or statement, including the restore's own "
                  "statements; or none) is a symbolic integer; the last replayed file optionally unscannable; the SQLite cleanliness gate on 0..2 tables with "
-                 "symbolic one-letter names against a symbolic revisions-table name; migrate lint: DevLoader.LoadChanges over 0..1 base files and 1..2 new files x 2 statements, any one of "
+                 "symbolic one-letter names against a symbolic revisions-table name; MySQL schema-bound dev connection: NormalizeSchema on an empty or "
+                 "non-empty dev schema (latin1) with a desired schema that has no / other / the same charset and collation, failing operation symbolic; migrate lint: DevLoader.LoadChanges over 0..1 base files and 1..2 new files x 2 statements, any one of "
                  "them (or none) a checkpoint, the last file optionally holding an invalid statement, same symbolic failing operation",
         "thorough": "same with directories of up to 3 files",
     },
@@ -620,7 +623,7 @@ PROPS["C14"] = dict(
         "a failing operation has no effect on the dev database",
     ],
     outside="what a real SQLite InspectRealm can see (the community build reports no views or triggers, so a dev database holding only a view is not "
-            "recognised as dirty: needs the real engine), the VACUUM-based restore itself, MySQL/PostgreSQL snapshot code, the SQLite file lock, the "
+            "recognised as dirty: needs the real engine), the VACUUM-based restore itself, PostgreSQL snapshot code, MySQL realm-scoped snapshots, the SQLite file lock, the "
             "--dev-url wiring of each CLI command (cmd/atlas module)",
     claim="For every initial dev state and every failing operation within the bounds: a non-empty dev database is refused and no statement at all is run on "
           "it; otherwise the restore is attempted on every exit path, nothing runs after it started, a completed restore leaves the database empty, a "
